@@ -75,10 +75,8 @@ EXPR_DATA = {
 def expression_cases(r: random.Random, tier: str) -> list[tuple[str, dict[str, str], dict[str, Any]]]:
     """(source, templates, data): every form in every hole; quick samples the product."""
     out = []
+    # the full product is cheap (about 7 000 sources, a few seconds): both tiers run all of it
     pairs = list(itertools.product(TAG_HOLES, EXPR_FORMS))
-    if tier != "thorough":
-        # every hole with a rotating quarter of the forms, every form at least in every 4th hole
-        pairs = [(h, e) for hi, h in enumerate(TAG_HOLES) for ei, e in enumerate(EXPR_FORMS) if (hi + ei) % 4 == 0]
     for hole, e in pairs:
         out.append((hole.replace("{E}", e), EXPR_TEMPLATES, EXPR_DATA))
     return out
@@ -154,7 +152,7 @@ FIXED_GRAPHS: list[dict[str, str]] = [
 
 def graph_cases(r: random.Random, tier: str) -> list[dict[str, str]]:
     out = list(FIXED_GRAPHS)
-    for _ in range(600 if tier == "thorough" else 60):
+    for _ in range(600 if tier == "thorough" else 150):
         out.append(graph(r, r.randint(1, 4)))
     return out
 
@@ -186,16 +184,14 @@ def subscript_cases(r: random.Random, tier: str) -> list[tuple[str, dict[str, An
     out: list[tuple[str, dict[str, Any]]] = []
     combos = list(itertools.product(SUBSCRIPT_SHAPES, range(len(CONTAINERS)), range(len(INDEXES))))
     if tier != "thorough":
-        combos = [c for n, c in enumerate(combos) if n % 9 == 0] + \
-                 [(s, ci, xi) for s in SUBSCRIPT_SHAPES[:3] for ci in range(4) for xi in range(len(INDEXES))]
+        combos = [c for n, c in enumerate(combos) if n % 2 == 0] + \
+                 [(s, ci, xi) for s in SUBSCRIPT_SHAPES[:3] for ci in range(6) for xi in range(len(INDEXES))]
     for shape, ci, xi in combos:
         out.append((shape, {"a": CONTAINERS[ci], "b": [0, 1, 2], "x": INDEXES[xi]}))
     fcombos = list(itertools.product(SUBSCRIPT_SHAPES[:4] + SUBSCRIPT_SHAPES[7:9], FILTER_INDEXES, range(len(CONTAINERS))))
     if tier != "thorough":
-        fcombos = [c for n, c in enumerate(fcombos) if n % 5 == 0]
+        fcombos = [c for n, c in enumerate(fcombos) if n % 2 == 0]
     for shape, f, ci in fcombos:
         src = "{% assign x = " + f + " %}" + shape
         out.append((src, {"a": CONTAINERS[ci], "b": [0, 1, 2]}))
-        if "a[x]" in shape and "|" in f and shape.count("x") == 1:
-            pass
     return out
